@@ -90,3 +90,34 @@ func VfPutGetE2E() {
 	zzvf.Assert(zzvf.And(w.Headers["ETag"] == getETag, w.Headers["Content-Type"] == getType), "head-agrees-with-get")
 	zzvf.Assert(w.Headers["Content-Length"] == strconv.Itoa(len(body)), "head-announces-the-uploaded-length")
 }
+
+// VfCopySourceNoCrash: C20 end to end – CopyObject and UploadPartCopy requests of root, an admin and a plain bucket owner with
+// degenerate X-Amz-Copy-Source values (empty once decoded and stripped, bucket only, doubly encoded, well formed) through
+// the real route handler over the real posix backend: no panic, an answer every time.
+func VfCopySourceNoCrash() {
+	be, _ := posix.VfWorldWithObject(1)
+	c := controllers.New(be, nil, nil, nil, nil, false, false)
+	ctx := vfRootRequest("PUT", "/bkt/dst")
+	r := zzvfbe.R
+	r.Params["key"] = "dst"
+	switch zzvf.Choice("caller", 3) {
+	case 1:
+		r.Locals["account"] = auth.Account{Access: "adm", Role: auth.RoleAdmin}
+		r.Locals["isRoot"] = false
+	case 2:
+		r.Locals["account"] = auth.Account{Access: "owner", Role: auth.RoleUser}
+		r.Locals["isRoot"] = false
+		r.Locals["parsedAcl"] = auth.ACL{Owner: "owner"}
+	}
+	sources := []string{"bkt/k", "/bkt/k", "%2F", "/", "//", "/%2F", "bkt", "bkt/", "%2Fbkt%2Fk", "bkt/k?versionId=", "?versionId=x"}
+	src := sources[zzvf.Choice("copy_source", len(sources))]
+	r.SetHeader("X-Amz-Copy-Source", src)
+	zzvf.Trace("copy source: " + src)
+	if zzvf.Choice("upload_part_copy", 2) == 1 {
+		r.SetQuery("uploadId", "nosuchupload")
+		r.SetQuery("partNumber", "1")
+	}
+	_ = c.PutActions(ctx)
+	zzvf.Reach("answered")
+	zzvf.Assert(zzvfbe.W.Status >= 200, "request-is-answered")
+}
